@@ -256,7 +256,17 @@ class C10(CompSpec):
             rng = random.Random(s)
             scen = scenario.normalize(scenario.gen_scenario(rng, max_jobs=8))
             scen["user"] = {"try_submit": rng.choice([3, 5, 8]), "show_status": rng.choice([1, 3]), "p": 0.05}
-            out.append(sim_task(scen, s, len(out)))
+            t = sim_task(scen, s, len(out))
+            if i % 2:
+                # commands that must NOT get the role while somebody holds it: resubmit-jobs on the incomplete submission (often
+                # from the holder's own host) and cancel-jobs late in the run
+                scen["resubmit"] = {"early_p": rng.choice([0.05, 0.2]), "rounds": []}
+                scen["policy"]["park_p"] = rng.choice([0.2, 0.4])
+                if i % 4 == 3:
+                    scen["cancel"] = rng.choice([0.01, 0.05])
+                    scen["cancel_host"] = rng.choice(["login", "login2"])
+                t["args"]["cls"] = "sim.resub:ResubSim"
+            out.append(t)
         return out
 
     def shape(self, t, r):
@@ -296,6 +306,7 @@ class C10(CompSpec):
             "promoted_rounds_in_simulations": total(sims, "promoted_rounds"),
             "refused_rounds_in_simulations": total(sims, "refused_rounds"),
             "status_observations_in_simulations": total(sims, "obs"),
+            "refused_resubmit_commands_in_simulations": total(sims, "refusals_checked"),
         }
 
     def floors(self, cov):
